@@ -1,0 +1,71 @@
+// Observation points for external verification harnesses.
+// Everything in this header is compiled only when SPECTRA_VERIF is defined;
+// otherwise the two macros expand to nothing and the library is unchanged.
+
+#ifndef SPECTRA_VERIF_HOOKS_H
+#define SPECTRA_VERIF_HOOKS_H
+
+#ifdef SPECTRA_VERIF
+
+namespace Spectra {
+namespace verif {
+
+// A type-erased view of a Krylov factorization A V = V H + f e_k' at a point where it is passed on.
+// All pointers refer to column-major storage of the factorization's scalar type.
+struct FacView
+{
+    const void* V;     // n x k (leading k columns of the basis)
+    long n, k;
+    const void* H;     // m x m
+    long m;
+    const void* f;     // n
+    const void* beta;  // pointer to the real-typed ||f||
+    const void* op;    // the ArnoldiOp the factorization works with
+};
+
+enum FacPoint
+{
+    FacInit = 0,        // end of Arnoldi::init
+    FacExtended = 1,    // end of factorize_from
+    FacCompressed = 2,  // end of compress_V
+    FacExpanded = 3,    // expand_basis returns with a fresh direction (V = the first i columns, f = new direction)
+    FacExpandFailed = 4 // expand_basis gave up after all attempts
+};
+
+using FacObserver = void (*)(int point, const FacView& view, void* ctx);
+using YieldFn = void (*)(int tag, void* ctx);
+
+inline thread_local FacObserver fac_observer = nullptr;
+inline thread_local void* fac_ctx = nullptr;
+inline thread_local YieldFn yield_fn = nullptr;
+inline thread_local void* yield_ctx = nullptr;
+
+}  // namespace verif
+}  // namespace Spectra
+
+#define SPECTRA_VERIF_FAC_POINT(point, Vdata, nrow, kcol, Hdata, mdim, fdata, betaptr, opptr)                     \
+    do                                                                                                           \
+    {                                                                                                            \
+        if (::Spectra::verif::fac_observer)                                                                      \
+        {                                                                                                        \
+            ::Spectra::verif::FacView view_ = {(Vdata), long(nrow), long(kcol), (Hdata), long(mdim), (fdata),    \
+                                               (betaptr), (opptr)};                                              \
+            ::Spectra::verif::fac_observer(int(point), view_, ::Spectra::verif::fac_ctx);                        \
+        }                                                                                                        \
+    } while (0)
+
+#define SPECTRA_VERIF_YIELD(tag)                                                     \
+    do                                                                               \
+    {                                                                                \
+        if (::Spectra::verif::yield_fn)                                              \
+            ::Spectra::verif::yield_fn(int(tag), ::Spectra::verif::yield_ctx);       \
+    } while (0)
+
+#else
+
+#define SPECTRA_VERIF_FAC_POINT(point, Vdata, nrow, kcol, Hdata, mdim, fdata, betaptr, opptr) ((void) 0)
+#define SPECTRA_VERIF_YIELD(tag) ((void) 0)
+
+#endif  // SPECTRA_VERIF
+
+#endif  // SPECTRA_VERIF_HOOKS_H
